@@ -83,3 +83,31 @@ contract("xdoctest.core:package_calldefs#glue",
               "once -- unless its module name matches an exclude pattern or the file does not exist -- and its definitions are yielded "
               "together with that path; a SyntaxError of the module is a warning (or re-raised when asked)",
          sentinel=("analyses-nothing", "True == False"))
+
+
+# ------------------------------------------------------------------------ C13: _complete_source, step by step
+import contracts.parser as _cp  # noqa: EnumIter record
+contract("xdoctest.static_analysis:is_balanced_statement", params={"lines": "list[str]", "only_tokens": "bool", "reraise": "int"},
+         returns="bool", trusted=True, log=False, raises={"Exception*?": None}, note="T: tokenizer based balance check")
+contract("xdoctest.parser:_complete_source#steps",
+         params={"line": "str", "state_indent": "int", "line_iter": "EnumIter"},
+         requires=[("indent", "0 <= state_indent"), ("iterator-inside-its-lines", "0 <= line_iter.pos and line_iter.pos <= len(line_iter.seq)")],
+         raises={"Exception*?": None},
+         modifies=["line_iter.pos"],
+         loops={0: LoopSpec(header="not static.is_balanced_statement(source_parts, only_tokens=True)",
+                            types={"source_parts": "list[str]"}, modifies=["line_iter.pos"],
+                            invariants=[("one-source-part-per-consumed-line", "len(source_parts) == 1 + line_iter.pos - old(line_iter.pos)"),
+                                        ("only-forward", "line_iter.pos >= old(line_iter.pos) and line_iter.pos <= len(line_iter.seq)")],
+                            body_post=[("one-line-consumed-and-one-pair-yielded",
+                                        "line_iter.pos == before(line_iter.pos) + 1 and ev_count('yield') == 1 and "
+                                        "ev_arg('yield', 0, 'value')[0] == next_line and ev_arg('yield', 0, 'value')[1] == norm_line")],
+                            decreases="len(line_iter.seq) - line_iter.pos")},
+         props=["C13"],
+         opts={"native": False,
+               "exit_facts": [("the-line-itself-is-yielded-first",
+                               "ev_count('yield') == 1 and ev_arg('yield', 0, 'value')[0] == line and "
+                               "ev_arg('yield', 0, 'value')[1] == S.substr(line, state_indent, len(line) - state_indent)")]},
+         note="the generator yields the line it is given, then -- while the statement is not balanced -- takes exactly one further line "
+              "from the shared iterator per step and yields it (a triple-quoted continuation without prompt is given a '... ' prefix); "
+              "this is the step-wise form of the assumed list view used by the labeller (one pair per consumed line, only forward)",
+         sentinel=("consumes-nothing", "True == False"))
